@@ -119,6 +119,14 @@ func c07Run(c *core.Ctx) *core.Result {
 	case "unrelated":
 		prior = tree.Gen(R, o)
 	}
+	if unpriv && src.Get("0ro") != nil && R.P(1, 2) {
+		// the read-only group exists already, out of date: its first name is
+		// re-created and filled while the other names are replaced one by one
+		prior = src.Clone()
+		applyGroup(prior, "0ro", func(x *tree.Entry) { x.Mtime += 9; x.Data = []byte("old") })
+		fixGroups(prior)
+		pk = "stale-readonly-group"
+	}
 	if unpriv {
 		for i := range prior.Entries {
 			if e := &prior.Entries[i]; e.Type == tree.Dir {
